@@ -1237,3 +1237,74 @@ B("C17", "guarded-append", ALI,
                 alignment_tuples.append((annotator, unit))""",
   """                if unit is not None:
                     alignment_tuples.append((annotator, unit))""")
+
+# =============================================================================================
+# C10
+# =============================================================================================
+REGRESSIONS.append(dict(prop="C10", id="regression/F5-take-until-limit-may-yield-nothing", patch="f5d0857.diff", rule="R-C10-1"))
+M("C10", "removal-skipped-for-first-slot", CONT,
+  """                for annotator, unit in chosen.n_tuple:
+                    if unit is not None:
+                        copy.remove(annotator, unit)  # Now we remove the units from the chosen alignment.""",
+  """                for annotator, unit in chosen.n_tuple[1:]:
+                    if unit is not None:
+                        copy.remove(annotator, unit)  # Now we remove the units from the chosen alignment.""", "R-C10-2")
+M("C10", "append-without-removal", CONT,
+  """                for annotator, unit in chosen.n_tuple:
+                    if unit is not None:
+                        copy.remove(annotator, unit)  # Now we remove the units from the chosen alignment.""",
+  """                if len(unitary_alignments) % 7 == 0:
+                    continue
+                for annotator, unit in chosen.n_tuple:
+                    if unit is not None:
+                        copy.remove(annotator, unit)  # Now we remove the units from the chosen alignment.""", "R-C10-2")
+M("C10", "fallback-test-inverted", CONT,
+  "    if continuum.best_window_size == np.inf:  # window size is set to infinity when normal gamma is better.",
+  "    if continuum.best_window_size != np.inf:  # window size is set to infinity when normal gamma is better.", "R-C10-4")
+M("C10", "measure-assigns-in-both-branches", CONT,
+  """            self.best_window_size = window_sizes[min_index]
+        else:
+            logging.warning("Fast-gamma disadvantageous, using normal gamma.")""",
+  """            self.best_window_size = window_sizes[min_index]
+        else:
+            self.best_window_size = window_sizes[min_index]
+            logging.warning("Fast-gamma disadvantageous, using normal gamma.")""", "R-C10-4")
+M("C10", "window-from-self-instead-of-copy", CONT,
+  "            window, x_limit = copy.get_first_window(dissimilarity, window_size)",
+  "            window, x_limit = self.get_first_window(dissimilarity, window_size)", "R-C10-2", "the first window is aligned again and again: units duplicated / no progress")
+M("C10", "limit-test-yields-nothing-for-strict-window", ALI,
+  "            if i > 0 and unitary_alignment.bounds[1] > x_limit:", "            if unitary_alignment.bounds[1] > x_limit:", "R-C10-1")
+M("C10", "copy-flush-loses-window-size", CONT,
+  """        continuum.bound_inf, continuum.bound_sup = self.bound_inf, self.bound_sup
+        continuum.best_window_size = self.best_window_size
+        return continuum
+
+    def copy(self)""",
+  """        continuum.bound_inf, continuum.bound_sup = self.bound_inf, self.bound_sup
+        return continuum
+
+    def copy(self)""", "R-C10-4", "samples fall back to the exact algorithm while the observed alignment is windowed")
+M("C10", "fast-cache-divided-by-copy-average", CONT,
+  """                         check_validity=False,  # Validity has been thoroughly tested
+                         disorder=np.sum(disorders) / self.avg_num_annotations_per_annotator)""",
+  """                         check_validity=False,  # Validity has been thoroughly tested
+                         disorder=np.sum(disorders) / copy.avg_num_annotations_per_annotator)""", "R-C10-3")
+B("C10", "chosen-materialised-with-fallback", CONT,
+  """            for chosen in best_alignment.take_until_limit(x_limit):
+                unitary_alignments.append(chosen)""",
+  """            kept = list(best_alignment.take_until_limit(x_limit))
+            for chosen in kept:
+                unitary_alignments.append(chosen)""")
+B("C10", "generator-first-then-limit", ALI,
+  """        for i, unitary_alignment in enumerate(leftmost_first):
+            # the leftmost unitary alignment is always taken, so that the fast alignment progresses
+            if i > 0 and unitary_alignment.bounds[1] > x_limit:
+                break
+            yield unitary_alignment""",
+  """        for i, unitary_alignment in enumerate(leftmost_first):
+            if i == 0:
+                yield unitary_alignment
+                continue
+            if unitary_alignment.bounds[1] > x_limit:
+                break
+            yield unitary_alignment""")
